@@ -178,3 +178,54 @@ theorem C01_state_replay_delay {G : Type} (step : G → List (Input × InputStat
   exact ⟨hg.cur.trans hc, hg.state⟩
 
 end Ggrs
+
+namespace Ggrs
+
+theorem getD_of_prefix (a S : List Input) (h : a <+: S) (f : Nat) (hf : f < a.length) : a.getD f 0 = S.getD f 0 := by
+  obtain ⟨t, rfl⟩ := h
+  simp [List.getD_eq_getElem?_getD, List.getElem?_append_left hf]
+
+/-- **C01 across two peers, given what the links deliver (the composition point).** Two sessions A and
+B, each in any state its own all-schedules theorem reaches (`SessInv`: `SessInv_run`). Suppose that
+for every player the two sessions' streams — what each has received or, for its own players,
+submitted — are prefixes of one common stream. (That is what the per-link theorems provide:
+`C11_owner_sends_queue`: the owner hands its queue content, frame by frame, to `send_input`;
+`C05_stream_intact`: whatever the network does, the receiver's events are an exact prefix of that.)
+Then after the rollback phase of the next call on either side, the two games' last simulations of
+every frame `f` that both have simulated agree on the input of every player whose input for `f`
+both hold: the confirmed parts of the two timelines are the same, so two deterministic games that
+do not look at the Confirmed/Predicted label are in the same state there (`C01_state_replay`:
+state = replay of the timeline). The product system in which the prefix hypothesis is derived
+rather than assumed is not built (DESIGN §14). -/
+theorem C01_agree_given_links (sA sB sA' sB' : P2P) (ghA ghB : Ghost) (tA tB : TLState) (nowA nowB : Nat)
+    (reqsA reqsB : List Request)
+    (hA : SessInv sA ghA tA []) (hB : SessInv sB ghB tB [])
+    (hlinks : ∀ p, ∃ S : List Input, (ghA.specs p).vals <+: S ∧ (ghB.specs p).vals <+: S)
+    (hcA : sA.advanceRollbackFrame nowA [] = .ok (sA', reqsA))
+    (hcB : sB.advanceRollbackFrame nowB [] = .ok (sB', reqsB)) :
+    ∃ (r1A r1B : List Request),
+      (reqsA = r1A ∨ ∃ ins, reqsA = r1A ++ [.advance ins]) ∧ (reqsB = r1B ∨ ∃ ins, reqsB = r1B ++ [.advance ins]) ∧
+      ∀ p, p < sA.sync.queues.length → p < sB.sync.queues.length → ∀ f : Nat,
+        (f : Int) < sA.sync.currentFrame → (f : Int) < sB.sync.currentFrame →
+        f < (ghA.specs p).vals.length → f < (ghB.specs p).vals.length →
+        (((execReqs tA r1A).R f).getD p default).1 = (((execReqs tB r1B).R f).getD p default).1 := by
+  obtain ⟨s1A, r1A, g1A, _, _, hsetA, hrightA, _, _, _, hcaseA⟩ := advanceRollbackFrame_spec sA sA' ghA tA [] reqsA nowA hA hcA
+  obtain ⟨s1B, r1B, g1B, _, _, hsetB, hrightB, _, _, _, hcaseB⟩ := advanceRollbackFrame_spec sB sB' ghB tB [] reqsB nowB hB hcB
+  refine ⟨r1A, r1B, ?_, ?_, ?_⟩
+  · rcases hcaseA with h | ⟨c, ins, _, h, _⟩
+    · exact Or.inl h
+    · exact Or.inr ⟨ins, h⟩
+  · rcases hcaseB with h | ⟨c, ins, _, h, _⟩
+    · exact Or.inl h
+    · exact Or.inr ⟨ins, h⟩
+  · intro p hpA hpB f hfA hfB hlA hlB
+    have hpA1 : p < s1A.sync.queues.length := by rw [hsetA.nq]; exact hpA
+    have hpB1 : p < s1B.sync.queues.length := by rw [hsetB.nq]; exact hpB
+    have eA := hrightA p hpA1 f (by rw [hsetA.cur]; exact hfA) (by rw [hsetA.specs]; exact hlA)
+    have eB := hrightB p hpB1 f (by rw [hsetB.cur]; exact hfB) (by rw [hsetB.specs]; exact hlB)
+    rw [← hsetA.inv.rows p hpA1 f, ← hsetB.inv.rows p hpB1 f, eA, eB, hsetA.specs, hsetB.specs]
+    obtain ⟨S, h1, h2⟩ := hlinks p
+    rw [getD_of_prefix _ S h1 f hlA, getD_of_prefix _ S h2 f hlB]
+
+end Ggrs
+
